@@ -1,28 +1,233 @@
-import Verif.Gen.Currency
-/-! Helper lemmas for Props/C18 (BitVec 64 ↔ Nat/Int views). -/
-namespace Verif.Lemmas.C18
+import Verif.Model.GoSem
+import Verif.Model.CurrencySpec
+import Verif.Model.Dec
+/-! Normal-form lemmas and the shape-independent bridge tactic for C18 (integer part).
 
-theorem slt_zero_iff (a : BitVec 64) : (BitVec.slt a 0#64 = true) ↔ a.toInt < 0 := by
-  simp [BitVec.slt]
+`bridge_int` proves `Gen.f args = Spec.f E args` without looking at how the Go function is written: unfold everything,
+split every `if` / call result on both sides, then in each leaf turn all hypotheses and the goal into linear
+arithmetic over `BitVec.toNat` (`int_norm`) and let `omega` decide — either the two results agree, or the path
+conditions of that leaf are contradictory. Only multiplication needs idiom lemmas (`mul_div_idiom`, `max_div_idiom`,
+`toNat_mul64Hi`), because `omega` treats `c.toNat * b.toNat` as an atom. -/
+namespace Verif.Lemmas.C18
+open Verif.GoSem Verif.Dec
+open Verif.Spec.Currency (amount maxInt64)
+
+@[simp] theorem Res.elim_ok {ε α β : Type} (a : α) (f : α → β) (g : ε → β) (p : β) : Res.elim (.ok a : Res ε α) f g p = f a := by
+  simp only [Res.elim]
+@[simp] theorem Res.elim_err {ε α β : Type} (e : ε) (f : α → β) (g : ε → β) (p : β) : Res.elim (.err e : Res ε α) f g p = g e := by
+  simp only [Res.elim]
+@[simp] theorem Res.elim_panic {ε α β : Type} (f : α → β) (g : ε → β) (p : β) : Res.elim (.panic : Res ε α) f g p = p := by
+  simp only [Res.elim]
+
+/-- a call result that is itself a conditional: push the continuation into both branches (so that no `if` stays
+    under a binder, where `split` cannot reach it) -/
+theorem Res.elim_ite {ε α β : Type} (c : Prop) [Decidable c] (x y : Res ε α) (f : α → β) (g : ε → β) (p : β) :
+    Res.elim (if c then x else y) f g p = if c then Res.elim x f g p else Res.elim y f g p := by
+  split <;> rfl
+
+theorem slt_iff (a b : BitVec 64) : (BitVec.slt a b = true) ↔ a.toInt < b.toInt := by simp [BitVec.slt]
+theorem sle_iff (a b : BitVec 64) : (BitVec.sle a b = true) ↔ a.toInt ≤ b.toInt := by simp [BitVec.sle]
+theorem slt_zero_iff (a : BitVec 64) : (BitVec.slt a 0#64 = true) ↔ a.toInt < 0 := by simp [BitVec.slt]
 
 theorem toInt_nonneg_toNat (a : BitVec 64) (h : 0 ≤ a.toInt) : a.toInt.toNat = a.toNat := by
   have := a.isLt
-  rw [BitVec.toInt_eq_toNat_cond] at h ⊢
+  rw [BitVec.toInt_eq_toNat_cond] at *
   split at h <;> split <;> omega
 
-theorem ofNat_toNat64 (a : BitVec 64) : BitVec.ofNat 64 a.toNat = a := by simp
+/-! `toNat` of the 64-bit operations, with the modulus as a LITERAL (a `2 ^ 64` that comes out of a lemma stated for
+an arbitrary width is not syntactically the `2 ^ 64` of a statement, and `omega`/`exact` then unfold the power). -/
 
-theorem toNat_ofNat_toInt (a : BitVec 64) (h : ¬ a.toInt < 0) :
-    (BitVec.ofNat 64 a.toInt.toNat).toNat = a.toInt.toNat := by
-  rw [toInt_nonneg_toNat a (by omega)]; simp
+theorem toNat_add64 (x y : BitVec 64) : (x + y).toNat = (x.toNat + y.toNat) % 18446744073709551616 := BitVec.toNat_add x y
+theorem toNat_mul64 (x y : BitVec 64) : (x * y).toNat = (x.toNat * y.toNat) % 18446744073709551616 := BitVec.toNat_mul x y
+theorem toNat_sub64 (x y : BitVec 64) : (x - y).toNat = (x.toNat + (18446744073709551616 - y.toNat)) % 18446744073709551616 := by
+  rw [BitVec.toNat_sub]; omega
+theorem toNat_ofNat64 (n : Nat) : (BitVec.ofNat 64 n).toNat = n % 18446744073709551616 := BitVec.toNat_ofNat n 64
+theorem ofInt_natCast_toNat (n : Nat) : (BitVec.ofInt 64 (n : Int)).toNat = n % 18446744073709551616 := by
+  rw [BitVec.ofInt_natCast]; exact BitVec.toNat_ofNat n 64
 
-theorem toNat_pos_of_ne_zero (c : BitVec 64) (h : ¬ c = 0#64) : 0 < c.toNat := by
-  rcases Nat.eq_zero_or_pos c.toNat with h0 | h0
-  · exact absurd (BitVec.eq_of_toNat_eq (by simpa using h0)) h
-  · exact h0
+/-- the signed value without a case distinction (friendly to `omega`) -/
+theorem toInt_eq_div (a : BitVec 64) :
+    a.toInt = (a.toNat : Int) - 18446744073709551616 * ((a.toNat / 9223372036854775808 : Nat) : Int) := by
+  have := a.isLt
+  rw [BitVec.toInt_eq_toNat_cond]
+  split <;> omega
 
-theorem maxDecimal_eq : Verif.Gen.Currency.maxDecimal = ⟨9223372036854775807, 0⟩ := by decide
+/-! `math/bits` in terms of `toNat` -/
 
-theorem sign_eq_neg_one_iff (i : Int) : Int.sign i = -1 ↔ i < 0 := Int.sign_eq_neg_one_iff_neg
+theorem toNat_mul64Hi (a b : BitVec 64) : (mul64Hi a b).toNat = a.toNat * b.toNat / 18446744073709551616 := by
+  unfold mul64Hi
+  rw [BitVec.toNat_ofNat]
+  apply Nat.mod_eq_of_lt
+  have h : a.toNat * b.toNat < 2 ^ 64 * 2 ^ 64 := Nat.mul_lt_mul'' a.isLt b.isLt
+  exact Nat.div_lt_of_lt_mul h
+theorem toNat_mul64Lo (a b : BitVec 64) : (mul64Lo a b).toNat = a.toNat * b.toNat % 18446744073709551616 := BitVec.toNat_mul a b
+theorem toNat_add64Sum (a b c : BitVec 64) :
+    (add64Sum a b c).toNat = (a.toNat + b.toNat + c.toNat) % 18446744073709551616 := by
+  unfold add64Sum; rw [BitVec.toNat_add, BitVec.toNat_add]; omega
+theorem toNat_add64Carry (a b c : BitVec 64) :
+    (add64Carry a b c).toNat = (a.toNat + b.toNat + c.toNat) / 18446744073709551616 := by
+  unfold add64Carry
+  rw [BitVec.toNat_ofNat]
+  apply Nat.mod_eq_of_lt
+  have := a.isLt; have := b.isLt; have := c.isLt
+  omega
+theorem toNat_sub64Diff (a b c : BitVec 64) :
+    (sub64Diff a b c).toNat = (a.toNat + (18446744073709551616 - b.toNat) + (18446744073709551616 - c.toNat)) % 18446744073709551616 := by
+  unfold sub64Diff; rw [toNat_sub64, toNat_sub64]; omega
+theorem toNat_sub64Borrow (a b c : BitVec 64) :
+    (sub64Borrow a b c).toNat = (b.toNat + c.toNat + (18446744073709551615 - a.toNat)) / 18446744073709551616 := by
+  unfold sub64Borrow
+  rw [BitVec.toNat_ofNat]
+  have := a.isLt; have := b.isLt; have := c.isLt
+  have h : (b.toNat + c.toNat + (2 ^ 64 - 1 - a.toNat)) / 2 ^ 64 < 2 ^ 64 := by omega
+  rw [Nat.mod_eq_of_lt h]
+
+/-! the two division idioms of an unsigned multiplication overflow test -/
+
+/-- `c != 0 && (c*b)/c != b` -/
+theorem mul_div_idiom (C B : Nat) (hC : ¬ C = 0) :
+    (C * B % 18446744073709551616 / C = B) ↔ C * B < 18446744073709551616 := by
+  have hpos : 0 < C := Nat.pos_of_ne_zero hC
+  constructor
+  · intro h
+    apply Nat.lt_of_not_le
+    intro hge
+    have hlt : C * B % 18446744073709551616 < C * B := by omega
+    have := Nat.div_lt_of_lt_mul hlt
+    omega
+  · intro h
+    rw [Nat.mod_eq_of_lt h, Nat.mul_div_cancel_left _ hpos]
+
+/-- `c != 0 && b > MaxUint64/c` -/
+theorem max_div_idiom (C B : Nat) (hC : ¬ C = 0) :
+    (18446744073709551615 / C < B) ↔ ¬ C * B < 18446744073709551616 := by
+  have hpos : 0 < C := Nat.pos_of_ne_zero hC
+  rw [Nat.div_lt_iff_lt_mul hpos, Nat.mul_comm B C]
+  omega
+
+/-- quotient and remainder of a 64-bit number fit in 64 bits -/
+theorem div_mod_two64 (c : BitVec 64) (n : Nat) : c.toNat / n % 18446744073709551616 = c.toNat / n :=
+  Nat.mod_eq_of_lt (Nat.lt_of_le_of_lt (Nat.div_le_self _ _) c.isLt)
+theorem mod_mod_two64 (c : BitVec 64) (n : Nat) : c.toNat % n % 18446744073709551616 = c.toNat % n :=
+  Nat.mod_eq_of_lt (Nat.lt_of_le_of_lt (Nat.mod_le _ _) c.isLt)
+
+/-- the embedding used by `coinInt64`: the returned int64 reads back as the amount -/
+theorem coinInt64_value (c : BitVec 64) (h : c.toNat < 2 ^ 63) : (BitVec.ofInt 64 (c.toNat : Int)).toInt = c.toNat := by
+  rw [BitVec.toInt_ofInt]
+  simp only [Int.bmod]
+  omega
+
+/-- everything to linear arithmetic over `toNat`, in passes: powers of two to literals and signed comparisons to
+    `toInt`; `a.toInt.toNat` to `a.toNat` where the context says `a` is not negative; then `toInt`, the bit-vector
+    operations; last the multiplication idioms (they need `¬ c.toNat = 0` from the normalised context) -/
+macro "int_norm" : tactic =>
+  `(tactic| (
+    try simp only [Nat.reducePow, slt_iff, sle_iff, gt_iff_lt, ge_iff_le, ne_eq, BitVec.toInt_zero] at *
+    try simp (disch := omega) only [toInt_nonneg_toNat] at *
+    try simp only [BitVec.lt_def, BitVec.le_def, ← BitVec.toNat_inj, toInt_eq_div, BitVec.reduceToNat,
+      toNat_add64, toNat_sub64, toNat_mul64, BitVec.toNat_udiv, BitVec.toNat_umod, toNat_ofNat64,
+      ofInt_natCast_toNat, toNat_mul64Hi, toNat_mul64Lo, toNat_add64Sum, toNat_add64Carry, toNat_sub64Diff, toNat_sub64Borrow,
+      div_mod_two64, mod_mod_two64, Nat.reduceMod, Nat.reduceDiv, Nat.reduceSub, Nat.reduceAdd, Nat.reduceMul,
+      Nat.zero_mul, Nat.mul_zero, Nat.zero_div, Nat.zero_mod, Nat.add_zero, Nat.zero_add, Nat.sub_zero,
+      Prod.mk.injEq, Res.ok.injEq, Res.err.injEq, reduceCtorEq, not_true_eq_false, not_false_eq_true, Classical.not_not,
+      and_self, and_true, true_and] at *
+    try simp (disch := omega) only [mul_div_idiom, max_div_idiom] at *))
+
+/-- close one leaf: both sides are `.ok _`, `.err _` or `.panic` and the context holds the path conditions -/
+macro "bridge_leaf" : tactic =>
+  `(tactic| first
+    | rfl
+    | (int_norm; first
+        | done
+        | omega
+        | (simp only [*, Nat.zero_mul, Nat.mul_zero, Nat.zero_div, Nat.zero_mod] at *; first | done | omega)
+        | (refine ⟨?_, ?_⟩ <;> omega))
+    | (exfalso; int_norm; first
+        | omega
+        | (simp only [*, Nat.zero_mul, Nat.mul_zero, Nat.zero_div, Nat.zero_mod] at *; first | done | omega)))
+
+/-- split every conditional (and every call result) on both sides, then close the leaves -/
+macro "bridge_int" : tactic =>
+  `(tactic| ((repeat' (split <;> try simp only [Res.elim_ok, Res.elim_err, Res.elim_panic])) <;> bridge_leaf))
+
+/-! ## decimals: the operations of ParseZCN in terms of `amount d = d·10^10` -/
+
+theorem sign_eq_neg_one_iff (d : Dec) : Dec.sign d = -1 ↔ d.coeff < 0 := Int.sign_eq_neg_one_iff_neg
+theorem sign_lt_zero_iff (d : Dec) : Dec.sign d < 0 ↔ d.coeff < 0 := by
+  unfold Dec.sign; exact Int.sign_neg_iff
+theorem exponent_eq (d : Dec) : Dec.exponent d = d.exp := rfl
+theorem exponent_shift (d : Dec) (k : Int) : Dec.exponent (Dec.shift d k) = d.exp + k := rfl
+
+theorem maxDec_eq : Dec.newFromInt 9223372036854775807#64 = ⟨maxInt64, 0⟩ := by decide
+
+/-- over the common exponent 0 the shifted amount is `amount d` -/
+theorem shift_keys (d : Dec) (h : -10 ≤ d.exp) :
+    (Dec.shift d 10).coeff * 10 ^ ((Dec.shift d 10).exp - min (Dec.shift d 10).exp 0).toNat = amount d ∧
+    maxInt64 * 10 ^ ((0 : Int) - min (Dec.shift d 10).exp 0).toNat = maxInt64 := by
+  have hmin : min (d.exp + 10) 0 = 0 := by omega
+  simp only [Dec.shift, hmin, amount]
+  simp
+
+theorem greaterThan_shift_max (d : Dec) (h : -10 ≤ d.exp) :
+    Dec.greaterThan (Dec.shift d 10) (Dec.newFromInt 9223372036854775807#64) = true ↔ maxInt64 < amount d := by
+  obtain ⟨h1, h2⟩ := shift_keys d h
+  rw [maxDec_eq]
+  unfold Dec.greaterThan
+  simp only [decide_eq_true_eq]
+  rw [h1, h2]
+
+theorem cmp_shift_max_pos (d : Dec) (h : -10 ≤ d.exp) :
+    0 < Dec.cmp (Dec.shift d 10) (Dec.newFromInt 9223372036854775807#64) ↔ maxInt64 < amount d := by
+  obtain ⟨h1, h2⟩ := shift_keys d h
+  rw [maxDec_eq]
+  unfold Dec.cmp
+  simp only []
+  rw [h1, h2]
+  constructor
+  · intro hc
+    split at hc
+    · omega
+    · split at hc <;> omega
+  · intro hc
+    rw [if_neg (by omega), if_neg (by omega)]; omega
+
+theorem intPart_shift (d : Dec) (h1 : -10 ≤ d.exp) (h2 : 0 ≤ d.coeff) :
+    Dec.intPart (Dec.shift d 10) = BitVec.ofNat 64 (amount d).toNat := by
+  have hnn : 0 ≤ amount d := by
+    unfold amount
+    exact Int.mul_nonneg h2 (Int.le_of_lt (Int.pow_pos (by decide)))
+  have hiv : Dec.intValue (Dec.shift d 10) = amount d := by
+    have hs : (Dec.shift d 10).exp = d.exp + 10 := rfl
+    have hc : (Dec.shift d 10).coeff = d.coeff := rfl
+    unfold Dec.intValue amount
+    rw [if_pos (by rw [hs]; omega), hs, hc]
+  unfold Dec.intPart
+  rw [hiv]
+  obtain ⟨k, hk⟩ : ∃ k : Nat, amount d = (k : Int) := ⟨(amount d).toNat, by omega⟩
+  rw [hk, BitVec.ofInt_natCast]
+  simp
+
+/-- `decimal.New(int64(c), -10).Float64()` is the rounded quotient `c / 10^10` for an amount below `2^63` -/
+theorem float64_new_neg10 (c : BitVec 64) (h : c.toNat < 2 ^ 63) :
+    Dec.float64 (Dec.new c (-10)) = Verif.F64.roundNE false c.toNat (10 ^ 10) := by
+  have hi : c.toInt = (c.toNat : Int) := by
+    rw [BitVec.toInt_eq_toNat_cond]; split <;> omega
+  simp only [Dec.float64, Dec.new, hi]
+  rw [if_neg (by omega)]
+  have hnn : ¬ ((c.toNat : Int) < 0) := by omega
+  simp [hnn]
+
+/-- the decimal part of ParseZCN: sign / exponent tests to statements about `coeff`, `exp`; split; in each leaf the
+    comparison with the maximum and the integer part become statements about `amount d` -/
+macro "bridge_dec" : tactic =>
+  `(tactic| (
+    try simp only [sign_eq_neg_one_iff, sign_lt_zero_iff, exponent_eq, exponent_shift, gt_iff_lt, ge_iff_le] at *
+    (repeat' split) <;> first
+      | rfl
+      | (exfalso; omega)
+      | (simp (disch := omega) only [greaterThan_shift_max, cmp_shift_max_pos, intPart_shift] at *; first
+          | done
+          | rfl
+          | (exfalso; omega))))
 
 end Verif.Lemmas.C18
